@@ -390,40 +390,48 @@ class Ctx:
 
     # ------------------------------------------------------------------ I2
     def closed_table(self, p):
+        """the panic is the otherwise-edge of a switch on `<f>(self).round() as i32` whose values include every value the
+        table function <f> can return (all of its returns are literals).  Decided on the MIR of both functions, so
+        or-patterns, merged ranges and the order of the arms do not matter."""
         run = self.run
-        it = src_fn(run, "fragment/line.rs", "heading", impl_self="Line")
-        la = src_fn(run, "fragment/line.rs", "line_angle", impl_self="Line")
-        if it is None or la is None:
-            return False, "", "heading / line_angle source not found"
-        def tail_match(f):
-            st = [s for s in f["body"]["stmts"] if s["k"] == "expr_stmt"]
-            return st[-1]["expr"] if st and st[-1]["expr"].get("k") == "match" else None
-        mh, ml = tail_match(it), tail_match(la)
-        if mh is None or ml is None:
-            return False, "", "heading / line_angle are not match tables"
-        # scrutinee of heading: self.line_angle().round() as i32
-        scr = mh["e"]
-        okscr = scr.get("k") == "cast" and scr["e"].get("k") == "method" and scr["e"]["method"] == "round" and scr["e"]["recv"].get("k") == "method" and scr["e"]["recv"]["method"] == "line_angle"
+        prog = run.prog
+        fn = p["fn"] if isinstance(p, dict) and "fn" in p else None
+        hs = [q for q in prog.bodies if q.endswith("line::Line::heading")]
+        if len(hs) != 1:
+            return False, "", "heading not found"
+        h = hs[0]
+        b = prog.bodies[h]
+        ex = Expr(prog, h)
+        g = prog.cfg(h)
+        panics = [bid for bid, t in prog.calls(h) if re.search(r"panicking::(panic|panic_fmt|unreachable_display)$", Program.callee_name(t))]
+        if len(panics) != 1:
+            return False, "", "heading has %d panic sites" % len(panics)
+        sw = [(bid, blk["term"]) for bid, blk in enumerate(b["blocks"]) if blk["term"]["k"] == "switch"]
+        sw = [(bid, t) for bid, t in sw if t["targets"][-1] == panics[0] or g.dominates(t["targets"][-1], panics[0])]
+        if len(sw) != 1:
+            return False, "", "the panic of heading is not the otherwise edge of one match"
+        bid, t = sw[0]
+        # no value edge may lead to the panic as well
+        if any(tg == t["targets"][-1] for tg in t["targets"][:-1]):
+            return False, "", "a listed value of heading's match panics too"
+        on = strip(ex.operand(t["on"]))
+        okscr = on[0] == "cast" and strip(on[2])[0] == "call" and re.search(r"<impl f32>::round$", strip(on[2])[1]) and \
+            strip(strip(on[2])[2][0])[0] == "call" and strip(strip(on[2])[2][0])[1].endswith("line::Line::line_angle")
+        if not okscr:
+            return False, "", "heading does not match on line_angle().round()"
+        la = strip(strip(on[2])[2][0])[1]
         outs = set()
-        for arm in ml["arms"]:
-            body = arm["body"]
-            if body.get("ty") == "float":
-                v = float(body["v"])
+        for r in Expr(prog, la).returns():
+            r = strip(r)
+            if r[0] == "const" and r[1] == "float":
+                v = float(r[2])
                 outs.add(int(v + 0.5) if v >= 0 else -int(-v + 0.5))
             else:
-                return False, "", "line_angle arm `%s` does not return a literal" % arm["pat"]["src"]
-        arms = set()
-        wild_panics = False
-        for arm in mh["arms"]:
-            pk = arm["pat"].get("pk")
-            if pk == "lit":
-                arms.add(int(arm["pat"]["lit"]["v"]))
-            elif pk == "wild":
-                wild_panics = True
-        missing = outs - arms
-        if okscr and not missing:
-            return True, "I2 closed table", "line_angle returns only %s (rounded), all of which are arms of heading" % sorted(outs)
-        return False, "", "line_angle can return %s (rounded), which heading does not handle -> unreachable!() fires" % sorted(missing) if okscr else "heading does not match on line_angle().round()"
+                return False, "", "line_angle can return `%s`, which is not a literal" % expr_str(r)[:60]
+        missing = outs - set(int(v) for v in t["values"])
+        if outs and not missing:
+            return True, "I2 closed table", "line_angle returns only %s (rounded), all of which are values of heading's match" % sorted(outs)
+        return False, "", "line_angle can return %s (rounded), which heading does not handle -> unreachable!() fires" % sorted(missing)
 
     # ------------------------------------------------------------------ I1
     def infeasible_skeleton(self, p):
